@@ -36,6 +36,29 @@ def writer_field(p):
 
 
 
+def rule_ack_flushed(ctx, p, cfg, rid="R2"):
+    """every Ok return of FileAppender::append has been through a checked flush of the buffered writer"""
+    with ctx.rule(rid, "acknowledged => flushed", cfg) as r:
+        f = p.fn_inl(APPEND, wanted=[ENCODE, FLUSH, "lock_api::mutex::Mutex::<R, T>::lock"])
+        enc = f.calls(ENCODE)
+        fl = [c.block for c in f.calls(FLUSH)]
+        if len(enc) != 1:
+            raise ShapeUnrecognised("expected one encode call")
+        ok, wit = q.must_follow_on_ok(f, enc[0].block, fl)
+        r.require(ok, "flush-follows-encode-on-ok", fn=f, site=enc[0].at,
+                  detail="every path from encode to an Ok return passes io::Write::flush",
+                  fail_detail="a path from encode (bb%d) reaches the Ok exit bb%s without flush; path=%s" % (
+                      enc[0].block, wit, q.path_between(f, enc[0].block, wit, avoid=fl) if wit is not None else None))
+        for x in q.ok_exit_blocks(f):
+            r.require(f.dominates(enc[0].block, x), "no-ok-before-encode", fn=f,
+                      detail="Ok exit bb%d is dominated by the encode call" % x)
+        # the flush result is not discarded: its Err edge reaches an error exit
+        for c in f.calls(FLUSH):
+            used = common.result_is_checked(f, c)
+            r.require(used, "flush-result-checked", fn=f, site=c.at,
+                      detail="flush's Result is propagated/inspected (not dropped)")
+
+
 def rule_open_options(ctx, p, cfg, rid="R4"):
     """how the file appender opens its file: created, writable, O_APPEND in append mode (every write lands at the end, whoever else
     writes), truncated only in truncate mode"""
@@ -163,25 +186,7 @@ def run_cfg(ctx, p, cfg):
             r.require(rb in span.after_release, "guard-released-before-return", fn=f,
                       detail="every return is preceded by the guard's drop")
 
-    with ctx.rule("R2", "acknowledged => flushed", cfg) as r:
-        f = p.fn_inl(APPEND, wanted=[ENCODE, FLUSH, "lock_api::mutex::Mutex::<R, T>::lock"])
-        enc = f.calls(ENCODE)
-        fl = [c.block for c in f.calls(FLUSH)]
-        if len(enc) != 1:
-            raise ShapeUnrecognised("expected one encode call")
-        ok, wit = q.must_follow_on_ok(f, enc[0].block, fl)
-        r.require(ok, "flush-follows-encode-on-ok", fn=f, site=enc[0].at,
-                  detail="every path from encode to an Ok return passes io::Write::flush",
-                  fail_detail="a path from encode (bb%d) reaches the Ok exit bb%s without flush; path=%s" % (
-                      enc[0].block, wit, q.path_between(f, enc[0].block, wit, avoid=fl) if wit is not None else None))
-        for x in q.ok_exit_blocks(f):
-            r.require(f.dominates(enc[0].block, x), "no-ok-before-encode", fn=f,
-                      detail="Ok exit bb%d is dominated by the encode call" % x)
-        # the flush result is not discarded: its Err edge reaches an error exit
-        for c in f.calls(FLUSH):
-            used = common.result_is_checked(f, c)
-            r.require(used, "flush-result-checked", fn=f, site=c.at,
-                      detail="flush's Result is propagated/inspected (not dropped)")
+    rule_ack_flushed(ctx, p, cfg, "R2")
 
     with ctx.rule("R3", "single handle", cfg) as r:
         wf = writer_field(p)
